@@ -71,6 +71,10 @@ def run(ctx):
     from . import c08 as c08_
     ctx.guard('C17.analysable', ctx.shared, {'C08.e-space-for-every-position': 'C17.f-bitmap-need-from-configuration'}, c08_.bitmap_covers, ctx, ctx.facts(cfgs[0]), cfgs[0])
     ctx.rule('C17.e-exact-need', 'the store is resized to exactly ceil(shard_bytes / 64) blocks per shard and work_count shards: a configuration that needs no more than what is held never grows the allocation')
+    ctx.rule('C17.g-working-space-stays-with-the-codec', 'a call that is rejected does not cost the codec its working space: no Err exit is reachable after the working space (or the inner codec holding it) was moved out of the object by mem::take / replace / swap and before it is stored back, so the next non-growing reset still finds the buffers (clause shared with C07.atomic, for these mutations)')
+    from . import c07 as c07_
+    moved_out = lambda key: re.match(r'call (take|replace|swap)::<', key) is not None
+    ctx.guard('C17.analysable', ctx.shared, {'C07.atomic': 'C17.g-working-space-stays-with-the-codec'}, c07_.check_cfg, ctx, ctx.facts(cfgs[0]), cfgs[0], {'only': moved_out})
     for cfg in cfgs:
         facts = ctx.facts(cfg)
         ctx.guard('C17.analysable', check, ctx, facts, cfg)
@@ -358,6 +362,31 @@ def exact_need(ctx, facts, cfg):
             return tuple(strip(x) for x in c)
         return c
 
+    def layout_need(body, call_blk, a1):
+        """a1 is next_power_of_two(max(original_base_pos + original_count, recovery_base_pos + recovery_count)) over the fields
+        of self, and the writes of this reset to those four fields come before the resize on every path"""
+        from .c05 import lin
+        x = strip(a1)
+        if not (isinstance(x, tuple) and x[0] == 'call' and str(x[1]).endswith('next_power_of_two') and len(x[2]) == 1):
+            return False
+        m = x[2][0]
+        if not (isinstance(m, tuple) and m[0] == 'call' and re.search(r'(^|::)max(::<.*>)?$', str(m[1])) and len(m[2]) == 2):
+            return False
+        SELF = ('deref', ('param', 'self'))
+        F = lambda r: ('field', SELF, r)
+        want = {repr(lin(('bin', 'Add', F('original_base_pos'), F('original_count')))), repr(lin(('bin', 'Add', F('recovery_base_pos'), F('recovery_count'))))}
+        if {repr(lin(m[2][0])), repr(lin(m[2][1]))} != want:
+            return False
+        fmap = {a_: r_ for a_, r_ in RL.fields.get('dec', {}).items()}
+        need = {'original_base_pos', 'original_count', 'recovery_base_pos', 'recovery_count'}
+        for bi in range(body.n):
+            for st in body.blocks[bi]['stmts']:
+                if st['k'] == 'assign' and st['lhs']['l'] == 1 and len(st['lhs']['p']) == 2 and st['lhs']['p'][0] == '*' and isinstance(st['lhs']['p'][1], dict):
+                    role = fmap.get(st['lhs']['p'][1].get('f'), st['lhs']['p'][1].get('f'))
+                    if role in need and (bi == call_blk or body.dominates(bi, call_blk)):
+                        need.discard(role)
+        return not need
+
     def is_len(c):
         return c in (('param', 'shard_bytes'), ('field', ('deref', ('param', 'self')), 'shard_bytes'))
 
@@ -428,7 +457,13 @@ def exact_need(ctx, facts, cfg):
         a1 = RL.norm(core.strip_var_ids(body.canon_op(t['args'][1])), rp.path)
         a2 = RL.norm(core.strip_var_ids(body.canon_op(t['args'][2])), rp.path)
         n += 1
-        if strip(a1) != ('param', 'work_count'):
+        if strip(a1) != ('param', 'work_count') and layout_need(body, calls[0][0], a1):
+            # the reset works the need out itself: the smallest power of two that holds every position it has just configured
+            if not is_ceil64(a2):
+                ctx.violation(R, 'blocks-per-shard:%s' % side, '%s resizes the store to %s blocks per shard; only ceil(shard_bytes / 64) is exactly what a shard needs' % (rp.path, core.show(a2)), site=t['line'], fn=rp.path, cfg=cfg)
+            else:
+                ctx.ok(R, '%s@%s' % (rp.path, cfg), {'shards': core.show(a1), 'blocks_per_shard': core.show(a2), 'note': 'need computed from the configured layout'})
+        elif strip(a1) != ('param', 'work_count'):
             ctx.violation(R, 'shard-count:%s' % side, '%s resizes the store to %s shards, not to its work_count parameter' % (rp.path, core.show(a1)), site=t['line'], fn=rp.path, cfg=cfg)
         elif not is_ceil64(a2) and composite(store_len, a1, a2):
             # the store takes the byte length and rounds it up itself: judged on the composition
